@@ -305,7 +305,14 @@ def fixed_scenarios():
     # catch-up over a backlog whose 1 MB mark falls inside a transaction (100 KB values: 9 singles, then a 3-entry transaction)
     vol = [{'a': 'w', 'op': [{'k': 'k%d' % (i % 3 + 1), 'v': 'v%d' % (i % 9 + 1)}]} for i in range(9)]
     vol += [{'a': 'w', 'op': t3('v4', 'v5', 'v6')}, {'a': 'w', 'op': [{'k': 'k1', 'v': 'v7'}]}, {'a': 'join'}]
-    return [('catchup-volume-cut-in-transaction', vol, 'huge', 'mid'), ('pushed-batches-over-256KB', big_push, 'huge', 'mid'), ('pushed-applybatch-numbered-entries', numbered, 'ascii', 'mid'),
+    # restart on the same data directory after a multi-entry transaction, with writes (singles and a transaction) while the replica
+    # is down: the replica numbers its own log per ENTRY, the primary per batch - any resume position derived from the local log is wrong
+    restart = [{'a': 'join'}, {'a': 'sleep', 'ms': 1200}, {'a': 'w', 'op': t3('v1', 'v2', 'v3')}, {'a': 'w', 'op': [{'k': 'k1', 'v': 'v4'}]},
+               {'a': 'w', 'op': [{'k': 'k2', 'v': 'TOMB'}]}, {'a': 'sleep', 'ms': 1500}, {'a': 'rstop'},
+               {'a': 'w', 'op': [{'k': 'k3', 'v': 'v5'}]}, {'a': 'w', 'op': [{'k': 'k3', 'v': 'v6'}]},
+               {'a': 'w', 'op': [{'k': 'k1', 'v': 'v7'}, {'k': 'k2', 'v': 'v8'}]}, {'a': 'rstart'}, {'a': 'sleep', 'ms': 300},
+               {'a': 'w', 'op': [{'k': 'k1', 'v': 'v9'}]}]
+    return [('restart-after-transaction-writes-while-down', restart, 'ascii', 'mid'), ('catchup-volume-cut-in-transaction', vol, 'huge', 'mid'), ('pushed-batches-over-256KB', big_push, 'huge', 'mid'), ('pushed-applybatch-numbered-entries', numbered, 'ascii', 'mid'),
             ('chunk-cuts-batch-join-after', many, 'ascii', 'mid'), ('single-after-idle', single_after_idle, 'binary', 'mid'),
             ('pushed-transactions', txn_push, 'ascii', 'mid'), ('flush-between', flush_between, 'ascii', 'mid'),
             ('big-values-join-after', many[60:], 'big', 'bigval')]
@@ -425,7 +432,7 @@ def sys_selftest(ctx, runs):
     """A sample that is no prefix state / a reported sequence beyond the applied prefix / a missing convergence must be rejected."""
     for r in runs:
         ss = [i for i, e in enumerate(r) if e['e'] == 's' and e['rep'] > 0]
-        if r[-1]['e'] == 'conv' and ss and not any(e['e'] == 'rrestart' for e in r):
+        if r[-1]['e'] == 'conv' and ss and not any(e['e'] in ('rrestart', 'rstop') for e in r):
             r1 = copy.deepcopy(r)
             r1[ss[-1]]['st']['k1'] = 'v9' if r1[ss[-1]]['st']['k1'] != 'v9' else 'v8'
             r2 = copy.deepcopy(r)
@@ -651,18 +658,19 @@ def check_C15(ctx):
         'churn: 4 writer goroutines at full rate (200-byte values); their operations are counted, not logged one by one - only an operation '
         'that misses its deadline appears as inv + hang; gated scenarios need the hook sites rp.stream.done / rp.hb.send',
         'the lock model MC_ReplLocks abstracts sends as non-blocking (blocking sends are the open finding) and has one session']
+    # the scenarios (harness processes only) run while the models are checked
+    ctx.kvh()
+    jobs = fault_jobs(ctx)
+    pool = cf.ThreadPoolExecutor(max_workers=6)
+    futs = [pool.submit(run_fault, ctx, j, f'f{i}') for i, j in enumerate(jobs)]
     mc(ctx, [('KevoRepl', 'MC_Repl_c15.cfg', 280), ('KevoRepl', 'MC_Repl_two.cfg', 280),
              ('MC_ReplLocks', 'MC_Repl_locks.cfg', 120), ('MC_ReplLocks', 'MC_Repl_locks_nosync.cfg', 120)],
        negatives=[('MC_ReplLocks', 'MC_Repl_locks_neg_order.cfg', 'Deadlock reached'),
                   ('MC_ReplLocks', 'MC_Repl_locks_neg_unreg.cfg', 'Deadlock reached'),
                   ('MC_ReplLocks', 'MC_Repl_locks_neg_hbleak.cfg', 'Deadlock reached')])
     replay_witnesses(ctx, 'C15')
-    jobs = fault_jobs(ctx)
-    runs = [None] * len(jobs)
-    with cf.ThreadPoolExecutor(max_workers=6) as ex:
-        futs = {ex.submit(run_fault, ctx, j, f'f{i}'): i for i, j in enumerate(jobs)}
-        for f in cf.as_completed(futs):
-            runs[futs[f]] = f.result()
+    runs = [f.result() for f in futs]
+    pool.shutdown()
     # a gated scenario whose hook site was never reached proves nothing: an error if the tree has the hook, a note otherwise
     for i in [i for i, r in enumerate(runs) if any(e['e'] == 'nohook' for e in r)][::-1]:
         site = next(e['site'] for e in runs[i] if e['e'] == 'nohook')
